@@ -65,9 +65,9 @@ def check(run):
         b3 = run.borrow("C03", why="`|http://`-style patterns are turned into scheme restrictions, not matched as text")
         run.guard("C02.via.C03.6.scheme-patterns", cfg, lambda: _C03.rule_scheme_patterns(b3, F, cfg))
         run.guard("C02.3.regex-translation", cfg + "/builder", lambda: rule_regex_builder(run, F, cfg))
+        run.guard("C02.3.regex-translation", cfg + "/case", lambda: rule_regex_case(run, F, cfg))
         run.guard("C02.2.flag-names", cfg, lambda: rule_flags(run, F, cfg))
         run.guard("C02.3.regex-translation", cfg, lambda: rule_translation(run, F, cfg))
-        run.guard("C02.4.label-boundary", cfg, lambda: rule_label_boundary(run, F, cfg))
         run.guard("C05.4.disjunction", cfg, lambda: C05.rule_disjunction(run, F, cfg))
         b = run.borrow("C06", why="a regex rebuilt after a discard must be the regex compiled the first time")
         run.guard("C02.via.C06.2.pure-cache", cfg, lambda: _C06.rule_pure_cache(b, F, cfg))
@@ -220,7 +220,7 @@ def rule_flags(run, F, cfg):
             pname = names.get(k, "?")
             e = mk.expr_operand(a)
             detail.append(f"{pname} <- {e[-60:]}")
-            if pname.startswith("is_"):
+            if pname.startswith("is_") or pname == "match_case":
                 if not re.search(re.escape(H) + pname + r"\(arg:mask\)$", e):
                     ok = False
     run.ob("C02.2.flag-names", "make_regexp->compile_regex", ok,
@@ -274,84 +274,6 @@ def rule_translation(run, F, cfg):
     okc = any("Range{start: 1" in cr.expr_operand(t["args"][1]) and has_cond(dominating_conditions(cr, b), r"^arg:is_complete_regex$", 1) for b, t in gets)
     run.ob("C02.3.regex-translation", "complete-regex-strips-slashes", okc,
            "for /re/ rules the text between the first and last character is compiled as the regex", config=cfg)
-
-
-def rule_label_boundary(run, F, cfg):
-    """is_anchored_by_hostname: decision table of the `||host` anchoring test, by path enumeration.
-    A path may return something other than `false` only if
-      * the filter hostname is empty, or the two have equal length and the result is their equality, or
-      * memmem::find located the filter hostname in the request hostname AND the label boundaries hold:
-          match at 0      -> wildcard hostname, or filter ends with '.', or hostname[flen..] starts with '.'
-          match at suffix -> filter starts with '.', or hostname[idx-1..] starts with '.'
-          infix           -> both of the above groups."""
-    f = F.fn(NM + "is_anchored_by_hostname")
-    run.touched(f)
-    n = 0
-    bad = []
-    for p in enumerate_paths(f):
-        if p.end != "return":
-            continue
-        val = path_value(f, p, 0) or "?"
-        if val == "false":
-            continue
-        n += 1
-        facts = {}
-        for e, v in p.conds:
-            facts[e] = v
-        ret = val
-
-        def holds(rx):
-            return any(re.search(rx, e) and v == 1 for e, v in facts.items()) or (ret != "true" and re.search(rx, ret) is not None)
-
-        if facts.get("(core::str::len(arg:filter_hostname) Eq 0)") == 1:
-            if ret != "true":
-                bad.append(("empty filter hostname must match", ret))
-            continue
-        if facts.get("(core::str::len(arg:filter_hostname) Eq core::str::len(arg:hostname))") == 1:
-            if not re.search(r"::eq\(arg:filter_hostname, arg:hostname\)$", ret):
-                bad.append(("equal lengths must compare the two hostnames", ret))
-            continue
-        found = [v for e, v in facts.items() if re.match(r"^discr\(memchr::memmem::find\(arg:hostname, arg:filter_hostname\)\)$", e)]
-        if found != [1]:
-            bad.append(("true without locating the filter hostname in the request hostname", ret))
-            continue
-        at0 = [v for e, v in facts.items() if re.search(r"find\(arg:hostname, arg:filter_hostname\)@Some\.0 Eq 0\)$", e)]
-        atsuf = [v for e, v in facts.items() if re.search(r"@Some\.0 Eq \(core::str::len\(arg:hostname\) SubWithOverflow core::str::len\(arg:filter_hostname\)\)\.0\)$", e)]
-        right_ok = holds(r"^arg:wildcard_filter_hostname$") or holds(r"ends_with\(arg:filter_hostname, '\.'\)$") or \
-            holds(r"starts_with\(core::str::traits::index\(.*\), '\.'\)$") and _slice_kind(f, p, "after")
-        left_ok = holds(r"starts_with\(arg:filter_hostname, '\.'\)$") or \
-            holds(r"starts_with\(core::str::traits::index\(.*\), '\.'\)$") and _slice_kind(f, p, "before")
-        if at0 == [1]:
-            if not right_ok:
-                bad.append(("prefix match without a label boundary after the filter hostname", ret))
-        elif atsuf == [1]:
-            if not left_ok:
-                bad.append(("suffix match without a label boundary before the filter hostname", ret))
-        else:
-            if not (right_ok and left_ok):
-                bad.append(("infix match without label boundaries on both sides", ret))
-    run.floor("C02.4.label-boundary", f"non-false return paths of is_anchored_by_hostname [{cfg}]", n, 8)
-    run.ob("C02.4.label-boundary", "table", not bad,
-           f"`||host` anchoring accepts only matches of the filter hostname at label boundaries of the request "
-           f"hostname ({n} accepting paths examined); offending: {bad[:3]}", site=f.loc(0), config=cfg,
-           detail="prefix: wildcard | filter ends with '.' | hostname[flen..] starts with '.'; suffix: filter starts "
-                  "with '.' | hostname[idx-1..] starts with '.'; infix: both")
-
-
-def _slice_kind(f, p, which):
-    """does the path evaluate starts_with('.') on hostname[flen..] (`after`) or hostname[idx-1..] (`before`)?"""
-    for b in p.blocks:
-        t = f.blocks[b]["t"]
-        if t["k"] == "call" and strip_generics(t["callee"]).endswith("traits::index"):
-            rng = f.expr_operand(t["args"][1])
-            base = f.expr_operand(t["args"][0])
-            if base != "arg:hostname":
-                continue
-            if which == "after" and rng == "std::ops::RangeFrom::RangeFrom{start: core::str::len(arg:filter_hostname)}":
-                return True
-            if which == "before" and re.search(r"RangeFrom\{start: \(memchr::memmem::find\(arg:hostname, arg:filter_hostname\)@Some\.0 SubWithOverflow 1\)\.0\}$", rng):
-                return True
-    return False
 
 
 # per-pattern test of each leaf: (haystack regex, shape regex of the closure's value). `f` is the pattern.
@@ -469,7 +391,7 @@ def rule_anchoring_table(run, F, cfg):
     specification on all valuations:
         empty rule host -> true; longer than the request host -> false; same length -> equality;
         not found -> false; found at 0 -> right boundary; found at the end -> left boundary; else both,
-      right boundary = wildcard || rule host ends with '.' || request host continues with '.'
+      right boundary = wildcard || rule host ends with '.' || the request-host character AFTER THE MATCH is '.'
       left boundary  = rule host starts with '.' || the preceding request-host character is '.'"""
     from analysis.pathinterp import enumerate_paths, path_value
     import itertools
@@ -487,6 +409,7 @@ def rule_anchoring_table(run, F, cfg):
         (r"^core::str::starts_with\(arg:filter_hostname, '\.'\)$", "FS"),
         (r"^core::str::starts_with\(core::str::traits::index\(arg:hostname, std::ops::RangeFrom::RangeFrom\{start: core::str::len\(arg:filter_hostname\)\}\), '\.'\)$", "HN"),
         (r"^core::str::starts_with\(core::str::traits::index\(arg:hostname, std::ops::RangeFrom::RangeFrom\{start: \(memchr::memmem::find\(arg:hostname, arg:filter_hostname\)@Some\.0 SubWithOverflow 1\)\.0\}\), '\.'\)$", "HP"),
+        (r"^core::str::starts_with\(core::str::traits::index\(arg:hostname, std::ops::RangeFrom::RangeFrom\{start: \(memchr::memmem::find\(arg:hostname, arg:filter_hostname\)@Some\.0 AddWithOverflow core::str::len\(arg:filter_hostname\)\)\.0\}\), '\.'\)$", "HNI"),
     ]
 
     def atom(e):
@@ -532,7 +455,10 @@ def rule_anchoring_table(run, F, cfg):
     bad = []
     n = 0
     if okp:
-        names = ["L0", "GT", "EQ", "FOUND", "AT0", "ATEND", "W", "FE", "FS", "HN", "HP", "SAME"]
+        # HN: the request host continues with '.' right after the rule host when the match is at offset 0
+        # (hostname[len..]); HNI: the same test at the end of the match wherever it is (hostname[at + len..]).
+        # At offset 0 the two coincide; for an infix match only HNI is the character after the match.
+        names = ["L0", "GT", "EQ", "FOUND", "AT0", "ATEND", "W", "FE", "FS", "HN", "HNI", "HP", "SAME"]
         for bits in itertools.product((0, 1), repeat=len(names)):
             v = dict(zip(names, bits))
             # arithmetic consistency of the length atoms
@@ -541,7 +467,9 @@ def rule_anchoring_table(run, F, cfg):
             if v["GT"] and v["EQ"]:
                 continue
             n += 1
-            right = v["W"] or v["FE"] or v["HN"]
+            if v["AT0"] and v["HN"] != v["HNI"]:
+                continue        # same character at offset 0
+            right = v["W"] or v["FE"] or v["HNI"]
             left = v["FS"] or v["HP"]
             if v["L0"]:
                 want = 1
@@ -580,3 +508,38 @@ def rule_regex_builder(run, F, cfg):
     uni = [v for k, vs in flags.items() if k.endswith("::unicode") for v in vs]
     run.ob("C02.3.regex-translation", "builders-not-unicode", bool(uni) and all(v == "false" for v in uni),
            f"every regex builder in compile_regex has unicode(false) ({flags})", site=cr.loc(0), config=cfg)
+
+
+def rule_regex_case(run, F, cfg):
+    """`/regex/` rules: the source text is never lower-cased (that would turn \\D, \\S, \\W, \\B into their
+    opposites); without $match-case they are compiled case-insensitively instead (the URL they see is lower-cased)"""
+    p = F.fn("filters::network::NetworkFilter::parse")
+    low = []
+    for b, t in p.calls(r"^std::str::to_ascii_lowercase$|^std::str::to_lowercase$"):
+        arg = p.vexpr_operand(t["args"][0])
+        prov = p.expr_operand(t["args"][0])
+        if "pattern" not in prov and "filter" not in arg:
+            continue
+        c = {re.sub(r"filters::network::(_::|NetworkFilterMask::)?", "", k): v
+             for k, v in dominating_conditions(p, b, render=p.vexpr_operand).items()}
+        mask_conds = {k: v for k, v in c.items() if k.startswith("contains(")}
+        low.append((mask_conds, p.loc(b)))
+    ok_parse = bool(low) and all(any(re.search(r"IS_COMPLETE_REGEX\)$", k) and v == 0 for k, v in mc.items()) for mc, _ in low)
+    cr = F.fn("regex_manager::compile_regex")
+    ci = []
+    for g in [cr] + F.closures_of(cr.name):
+        nb = len(g.calls(r"Regex(Set)?Builder::new$"))
+        flags = [g.expr_operand(t["args"][1]) for b, t in g.calls(r"Regex(Set)?Builder::case_insensitive$")]
+        ci.append((nb, flags))
+    ok_ci = all(nb == len(fl) for nb, fl in ci) and any(nb for nb, _ in ci)
+    val = [fl for nb, fl in ci if nb and not any("up:" in x for x in fl)]
+    ok_val = bool(val) and all(all(re.match(r"^φ\{(Not\(arg:match_case\) \| false|false \| Not\(arg:match_case\))\}$", x) for x in fl) for fl in val)
+    guard_ok = False
+    for b, i, st in cr.statements():
+        if st["k"] == "assign" and st["rv"]["k"] == "unop" and "match_case" in cr.expr_rvalue(st["rv"]):
+            guard_ok = has_cond(dominating_conditions(cr, b), r"^arg:is_complete_regex$", 1)
+    run.ob("C02.3.regex-translation", "regex-text-case", ok_parse and ok_ci and ok_val and guard_ok,
+           "NetworkFilter::parse lower-cases a pattern only when it is not a complete regex (and not $match-case); "
+           "compile_regex builds every regex with case_insensitive(is_complete_regex && !match_case). Lower-casing the "
+           f"source of `/ab\\D/` would make it `/ab\\d/` (lower-casing sites: {low}; builder flags: {ci})",
+           site=low[0][1] if low else p.loc(0), config=cfg)
